@@ -128,6 +128,13 @@ def builtin_fn(ex, st, nm, e, cx, k):
     if nm == 'ord':
         def f(st, v):
             o = ex.uf('ord', z3.StringSort(), z3.IntSort())
+            if v.ty.kind == 'opt' and v.ty.args[0].kind == 'str':
+                # ord(None) is a TypeError
+                dt_ = T.sort_of(v.ty)
+                return ex.guard_raise(st, cx, dt_.is_none(v.z), 'TypeError', e,
+                                      lambda s_: k(s_, SV(INT, o(dt_.val(v.z)))), why='ord(None)')
+            if v.ty.kind != 'str':
+                raise VCError(f'ord() of {v.ty!r} outside subset')
             return k(st, SV(INT, o(v.z)))
         return ex.ev(st, args[0], cx, f)
     if nm in ('abs',):
